@@ -617,8 +617,19 @@ func builtinRandomInt(i *Interpreter, args []Expr, env *Environment) (interface{
 	if minVal > maxVal {
 		return nil, fmt.Errorf("randomInt() requires min <= max, got min=%d, max=%d", minVal, maxVal)
 	}
+	// The number of values in [minVal, maxVal] does not fit an int64 for ranges wider than
+	// 2^63-1 (maxVal-minVal+1 wraps, and rand.Int63n panics on a non-positive argument), so
+	// the width is computed in uint64, where 0 stands for the full 64-bit range.
+	span := uint64(maxVal) - uint64(minVal) + 1
 	// #nosec G404 -- non-cryptographic PRNG intentional for general-purpose scripting use
-	return minVal + rand.Int63n(maxVal-minVal+1), nil
+	switch {
+	case span == 0:
+		return int64(rand.Uint64()), nil
+	case span <= math.MaxInt64:
+		return minVal + rand.Int63n(int64(span)), nil
+	default:
+		return int64(uint64(minVal) + rand.Uint64()%span), nil
+	}
 }
 
 func builtinGenerateId(_ *Interpreter, args []Expr, _ *Environment) (interface{}, error) {
